@@ -73,6 +73,29 @@ func (s RedactableBytes) Redact() (r RedactableBytes)
   modifies rxre, rxsrc, rxsrcl, rxrepl, rxrepll, rxres, rxresl, alloc
   ensures [C07] rxre == ReStripSensitive && sameView(rxsrc, s) && rxsrcl == len(s) && RedactedRepl() && sameView(rxres, r) && rxresl == len(r)
 
+-- the delimiters are handed out as new slices: a caller that writes into what it got cannot change the bytes the
+-- library itself uses from then on (C07: the []byte variants would disagree with the string variants; C12: shared state)
+func StartMarker() (r []byte)
+  modifies alloc
+  ensures [C07,C12] fresh(r) && len(r) == 3 && isS(r, 0)
+
+func EndMarker() (r []byte)
+  modifies alloc
+  ensures [C07,C12] fresh(r) && len(r) == 3 && isE(r, 0)
+
+func RedactedMarker() (r []byte)
+  modifies alloc
+  ensures [C07,C12] fresh(r) && len(r) == 8 && isS(r, 0) && r[3] == 195 && r[4] == 151 && isE(r, 5)
+
+-- the conversions keep the content ("the ToBytes/ToString conversions agree") and do not share storage
+func (s RedactableString) ToBytes() (r RedactableBytes)
+  modifies alloc
+  ensures [C07] len(r) == len(s) && (forall j :: 0 <= j && j < len(s) ==> r[j] == s[j]) && (len(r) == 0 || fresh(r))
+
+func (s RedactableBytes) ToString() (r RedactableString)
+  modifies alloc
+  ensures [C07] len(r) == len(s) && (forall j :: 0 <= j && j < len(s) ==> r[j] == s[j])
+
 func EscapeMarkers(s []byte) (r []byte)
   modifies rxre, rxsrc, rxsrcl, rxrepl, rxrepll, rxres, rxresl, alloc
   ensures [C07,C10] rxre == ReStripMarkers && sameView(rxsrc, s) && rxsrcl == len(s) && rxrepll == 1 && rxrepl[0] == 63 && sameView(rxres, r) && rxresl == len(r)
